@@ -203,7 +203,7 @@ end Correct
 
 /-! ## Statements that use that `ZMod n` is a field (`n` prime) -/
 section Prime
-variable {n : ℕ} [Fact n.Prime] {G : Type*} [AddCommGroup G] [Module (ZMod n) G]
+variable {n : ℕ} {G : Type*} [AddCommGroup G] [Module (ZMod n) G] [Fact n.Prime]
 variable (g : G) (hashE : G × G × G × G → ZMod n)
 
 /-- A signature made with key `k` fails verification under any other key `k'` (for a non-identity `Y`; `HashToCurve`
